@@ -790,7 +790,14 @@ func c07MakeCase(role string, input []byte) c07Case {
 // c07Judge runs the complete battery (every variant) of a role on one input and returns the
 // first finding, nil if every monitor is satisfied.
 func c07Judge(role string, input []byte) *c07Finding {
-	r, hung := c07Guarded(role, input, true, 0, &c07Current{role: role, input: input})
+	return c07JudgeAs(&c07Current{role: role, input: input})
+}
+
+// c07JudgeAs is c07Judge for a battery described by cur (which may carry the mirror file of the
+// single-unit mode).
+func c07JudgeAs(cur *c07Current) *c07Finding {
+	role, input := cur.role, cur.input
+	r, hung := c07Guarded(role, input, true, 0, cur)
 	if hung != nil {
 		return &c07Finding{hung.Monitor, hung.Method, "the call did not return within the CPU/wall budget of one call"}
 	}
